@@ -335,6 +335,7 @@ func H_C01_StreamRollback() {
 	pre := setupStream(se, "nund")
 	rt.Assume(rt.IntLt(sdk.ZeroInt(), pre.Deposit))
 	committedMS, committedBank := se.MS.Snapshot(), se.Bank.Clone()
+	pristine := se.MS.DeepSnapshot() // the database as a restarting node reads it
 	// node A: long-running keeper se.K
 	sa := streamkeeper.NewMsgServerImpl(se.K)
 	fee2 := AnyValidatorFee("valFee2")
@@ -348,7 +349,7 @@ func H_C01_StreamRollback() {
 	var ra, rb *streamtypes.MsgClaimStreamResponse
 	panA := rt.Catch(func() { ra, errA = sa.ClaimStream(sdk.WrapSDKContext(a.Ctx), msg) })
 	// node B: restarted from the committed state
-	b := &Env{MS: committedMS.Snapshot(), Bank: committedBank, Now: now}
+	b := &Env{MS: pristine, Bank: committedBank, Now: now}
 	b.Ctx = rt.NewContext(b.MS, now, 10, false)
 	sb := streamkeeper.NewMsgServerImpl(streamkeeper.NewKeeper(se.Key, b.Bank, b.Bank, rt.Codec(), authtypes.FeeCollectorName, Authority()))
 	panB := rt.Catch(func() { rb, errB = sb.ClaimStream(sdk.WrapSDKContext(b.Ctx), msg) })
@@ -368,15 +369,19 @@ func H_C01_WrkRollback() {
 	we := NewWrkEnv(now)
 	pre := setupWrk(we, 1)
 	committed := we.MS.Snapshot()
+	pristine := we.MS.DeepSnapshot()
 	sa := wrkkeeper.NewMsgServerImpl(we.K)
-	if rt.Choose(2) == 0 {
+	switch rt.Choose(3) {
+	case 0:
 		_, _ = sa.UpdateParams(sdk.WrapSDKContext(we.Ctx), &wrktypes.MsgUpdateParams{Authority: Authority(), Params: anyWrkParamsFull("q")})
-	} else {
+	case 1:
 		_, _ = sa.PurchaseWrkChainStateStorage(sdk.WrapSDKContext(we.Ctx), &wrktypes.MsgPurchaseWrkChainStateStorage{WrkchainId: pre.ID, Number: rt.U64("x.number"), Owner: Addr(0).String()})
+	default:
+		_, _ = sa.RegisterWrkChain(sdk.WrapSDKContext(we.Ctx), &wrktypes.MsgRegisterWrkChain{Moniker: "x", Name: "x", Owner: Addr(0).String()})
 	}
 	a := &Env{MS: committed.Snapshot(), Bank: we.Bank, Now: now}
 	a.Ctx = rt.NewContext(a.MS, now, 10, false)
-	b := &Env{MS: committed.Snapshot(), Bank: we.Bank, Now: now}
+	b := &Env{MS: pristine, Bank: we.Bank, Now: now}
 	b.Ctx = rt.NewContext(b.MS, now, 10, false)
 	sb := wrkkeeper.NewMsgServerImpl(wrkkeeper.NewKeeper(we.Key, rt.Codec(), Authority()))
 	var errA, errB error
@@ -409,13 +414,20 @@ func H_C01_EntRollback() {
 	po := anyOrder("po", 4, Addr(0), enttypes.StatusRaised, 1, nowSec)
 	_ = k.SetPurchaseOrder(ctx, po)
 	k.AddPoToRaisedQueue(ctx, 4)
+	_ = k.AddAddressToWhitelist(ctx, Addr(0))
 	committed, committedBank := ee.MS.Snapshot(), ee.Bank.Clone()
+	pristine := ee.MS.DeepSnapshot()
 	sa := entkeeper.NewMsgServerImpl(k)
-	p2 := enttypes.Params{EntSigners: Signer(2).String(), Denom: "nund", MinAccepts: 1, DecisionTimeLimit: rt.U64("q.decisionLimit")}
-	_, _ = sa.UpdateParams(sdk.WrapSDKContext(ctx), &enttypes.MsgUpdateParams{Authority: Authority(), Params: p2})
+	rolledBackRaise := rt.Choose(2) == 1
+	if rolledBackRaise {
+		_, _ = sa.UndPurchaseOrder(sdk.WrapSDKContext(ctx), &enttypes.MsgUndPurchaseOrder{Purchaser: Addr(0).String(), Amount: sdk.NewCoin("nund", rt.BigInt("x.amount", 1, 128))})
+	} else {
+		p2 := enttypes.Params{EntSigners: Signer(2).String(), Denom: "nund", MinAccepts: 1, DecisionTimeLimit: rt.U64("q.decisionLimit")}
+		_, _ = sa.UpdateParams(sdk.WrapSDKContext(ctx), &enttypes.MsgUpdateParams{Authority: Authority(), Params: p2})
+	}
 	a := &Env{MS: committed.Snapshot(), Bank: ee.Bank, Now: now}
 	a.Ctx = rt.NewContext(a.MS, now, 10, false)
-	b := &Env{MS: committed.Snapshot(), Bank: committedBank, Now: now}
+	b := &Env{MS: pristine, Bank: committedBank, Now: now}
 	b.Ctx = rt.NewContext(b.MS, now, 10, false)
 	kb := entkeeper.NewKeeper(ee.Key, b.Bank, b.Bank, rt.Codec(), Authority())
 	sb := entkeeper.NewMsgServerImpl(kb)
@@ -429,6 +441,13 @@ func H_C01_EntRollback() {
 		_, errB = sb.ProcessUndPurchaseOrder(sdk.WrapSDKContext(b.Ctx), msg)
 		enterprise.BeginBlocker(b.Ctx, kb)
 	})
+	if rolledBackRaise && !panA && !panB {
+		// a new order raised on both nodes gets the same id
+		rmsg := &enttypes.MsgUndPurchaseOrder{Purchaser: Addr(0).String(), Amount: sdk.NewCoin("nund", rt.BigInt("y.amount", 1, 128))}
+		ra, ea := sa.UndPurchaseOrder(sdk.WrapSDKContext(a.Ctx), rmsg)
+		rb, eb := sb.UndPurchaseOrder(sdk.WrapSDKContext(b.Ctx), rmsg)
+		rt.Assert("C01.restart.ent-same-order-id", rt.And(rt.ErrCode(ea) == rt.ErrCode(eb), rt.Implies(ea == nil && eb == nil, ra.PurchaseOrderId == rb.PurchaseOrderId)))
+	}
 	rt.Assert("C01.restart.ent-same-outcome", rt.And(panA == panB, rt.ErrCode(errA) == rt.ErrCode(errB)))
 	rt.Assert("C01.restart.ent-same-state", rt.And(a.MS.SameAs(b.MS), a.Bank.SameAs(b.Bank)))
 	rt.Reach("end")
